@@ -107,10 +107,16 @@ type caseT struct {
 	CacheL   int            `json:"cache_leaves"`
 	RCW      int            `json:"reader_chunk_writes"`
 	CRC      bool           `json:"crc"`
+	Store    string         `json:"store"` // mem | localfs (a real directory on tmpfs: file-like blob readers)
+	Reput    bool           `json:"reput"` // Put, Delete, Put again on the same Fs before reading
 	Program  []readOp       `json:"program"`
 }
 
 func drawLeaf(t *rapid.T) uint32 {
+	if !hx.Thorough() && rapid.IntRange(0, 399).Draw(t, "bigleafq") == 0 {
+		// the pooled leaf buffers come in 1..5 MiB classes: leaf sizes equal to a class capacity are a boundary
+		return rapid.SampledFrom([]uint32{1 << 20, 2 << 20, 5 << 20}).Draw(t, "Lbig")
+	}
 	if hx.Thorough() && rapid.IntRange(0, 199).Draw(t, "bigleaf") == 0 {
 		return rapid.SampledFrom([]uint32{32*1024 - 1, 32 * 1024, 32*1024 + 1, 1 << 20, 3 << 19, 5 << 20}).Draw(t, "L")
 	}
@@ -122,6 +128,9 @@ func drawCase(t *rapid.T) caseT {
 	maxK := 6
 	if L > 1<<16 {
 		maxK = 3
+		if !hx.Thorough() {
+			maxK = 1
+		}
 	}
 	c := caseT{Content: hx.Content(t, L, maxK, "content")}
 	li := int(L)
@@ -140,6 +149,8 @@ func drawCase(t *rapid.T) caseT {
 	c.CacheL = rapid.IntRange(1, 8).Draw(t, "cache")
 	c.RCW = rapid.IntRange(1, 8).Draw(t, "rcw")
 	c.CRC = rapid.Bool().Draw(t, "crc")
+	c.Store = rapid.SampledFrom([]string{"mem", "mem", "localfs"}).Draw(t, "store")
+	c.Reput = rapid.IntRange(0, 5).Draw(t, "reput") == 0
 	nops := rapid.IntRange(1, 6).Draw(t, "nops")
 	size := int64(c.Content.Size)
 	for i := 0; i < nops; i++ {
@@ -147,8 +158,13 @@ func drawCase(t *rapid.T) caseT {
 		switch op.Kind {
 		case "read":
 			op.Bufs = rapid.SliceOfN(rapid.IntRange(1, 2*li), 1, 5).Draw(t, "bufs")
-			if op.Bufs[0] < 16 && size > 50000 {
-				op.Bufs[0] = 4096
+			if size > 50000 {
+				// keep the number of Read calls bounded for big objects
+				for bi := range op.Bufs {
+					if op.Bufs[bi] < 1024 {
+						op.Bufs[bi] += 1024
+					}
+				}
 			}
 		case "readat":
 			switch rapid.IntRange(0, 3).Draw(t, "offsel") {
@@ -207,9 +223,14 @@ func runCase(c caseT) error {
 		cafs.LeafSize(L), cafs.Logger(hx.Nop), cafs.ConcurrentFlushes(c.Flushes),
 		cafs.Prefetch(c.Prefetch), cafs.CacheSize(c.CacheL * int(L)), cafs.ReaderConcurrentChunkWrites(c.RCW),
 	}
-	if c.CRC {
+	switch {
+	case c.Store == "localfs":
+		sc := hx.NewScratch()
+		defer sc.Close()
+		opts = append(opts, cafs.Backend(hx.Local(sc.Dir("blobs"))))
+	case c.CRC:
 		opts = append(opts, cafs.Backend(store.WithCRC()))
-	} else {
+	default:
 		opts = append(opts, cafs.Backend(store))
 	}
 	fs, err := cafs.New(opts...)
@@ -249,6 +270,20 @@ func runCase(c caseT) error {
 	}
 	if res.Written != int64(len(content)) {
 		return fmt.Errorf("Put reported Written=%d, content has %d bytes", res.Written, len(content))
+	}
+	if c.Reput {
+		// the object is deleted and stored again through the same Fs: it must be fully there again
+		if err := fs.Delete(context.Background(), res.Key); err != nil {
+			return fmt.Errorf("Delete: %v", err)
+		}
+		var src2 io.Reader = bytes.NewReader(content)
+		res2, err := fs.Put(context.Background(), src2)
+		if err != nil {
+			return fmt.Errorf("second Put: %v", err)
+		}
+		if res2.Key != res.Key || res2.Written != int64(len(content)) {
+			return fmt.Errorf("second Put: key %s written %d, first %s %d", res2.Key, res2.Written, res.Key, len(content))
+		}
 	}
 	// read with a fresh Fs half of the time? keep same fs for ops with index even, fresh for odd
 	for i, op := range c.Program {
@@ -393,7 +428,7 @@ func (c caseT) sig() string {
 			s += k + ","
 		}
 	}
-	return fmt.Sprintf("L=%d k=%d d=%s src=%s styles=%s", c.Content.Leaf, c.Content.K, c.Content.DClass(), c.Source, s)
+	return fmt.Sprintf("L=%d k=%d d=%s src=%s store=%s reput=%v styles=%s", c.Content.Leaf, c.Content.K, c.Content.DClass(), c.Source, c.Store, c.Reput, s)
 }
 
 func check(t interface {
